@@ -133,6 +133,18 @@ def check_day(ctx, day, tod):
                 ctx.fail('dt2str_roundtrip', 'dt(dt2str(%r)) = dt(%r) = %r' % (X, s2, got), case=dict(term, spelling='dt2str'))
         except Exception as e:
             ctx.fail('dt2str_roundtrip', 'dt(dt2str(%r)) raised %s' % (X, core.exc_str(e)), case=dict(term, spelling='dt2str'))
+    # the same round trip through dt2str's own format spellings (a separator, strftime letters with or without %, 'iso'): one per day, in rotation
+    FMTS = [('-', D), ('/', D), ('.', D), (' ', D), ('', D), ('iso', T), ('Ymd', D), ('%Y-%m-%d', D), ('Y-m-d', D), ('d b Y', D), ('d-B-Y', D), ('B d, Y', D),
+            ('Y/m/d', D), ('d/m/Y', D), ('Y-m-d H:M:S', Ts), ('Y-m-dTH:M:S.f', T)]
+    fmt_, X = FMTS[D.toordinal() % len(FMTS)]
+    ctx.monitors['dt2str_roundtrip'] += 1
+    try:
+        s2 = dt2str(X, fmt_)
+        got = dt(s2)
+        if got != X:
+            ctx.fail('dt2str_roundtrip', 'dt(dt2str(%r, %r)) = dt(%r) = %r' % (X, fmt_, s2, got), case=dict(term, spelling='dt2str fmt'))
+    except Exception as e:
+        ctx.fail('dt2str_roundtrip', 'dt(dt2str(%r, %r)) raised %s' % (X, fmt_, core.exc_str(e)), case=dict(term, spelling='dt2str fmt'))
     for fmt in ('%Y-%b-%d', '%Y %B %d', '%Y/%b/%d', '%Y.%B.%d'):
         sname = D.strftime(fmt)
         eq('year-first month name %r' % sname, lambda: dt(sname), D)
